@@ -1499,6 +1499,12 @@ class Emitter:
             return sig + ';', sigd + '{ return 0; }'
         if name == '__cxa_guard_acquire':
             return sig + ';', sigd + '{ return *(uint8_t*)a0 == 0; }'
+        if name == 'pthread_mutex_lock':
+            # emulated thread system (a logical thread runs whole calls at yield points): a schedule in which a thread would have
+            # to wait for a mutex held by another logical thread is infeasible, not a deadlock - cut it
+            return sig + ';', sigd + '{ __CPROVER_assume(*(uint8_t*)a0 == 0); *(uint8_t*)a0 = 1; return 0; }'
+        if name == 'pthread_mutex_unlock':
+            return sig + ';', sigd + '{ *(uint8_t*)a0 = 0; return 0; }'
         if name == '_ZNSt7__cxx1112basic_stringIcSt11char_traitsIcESaIcEE9_M_createERmm':
             # std::string::_M_create(size_type& capacity, size_type old): heap buffer of capacity+1 chars
             return sig + ';', sigd + '{ void *p = malloc(*a1 + 1); __CPROVER_assume(p != 0); return (%s)p; }' % self.cty(f.ret)
